@@ -17,7 +17,7 @@ def cargo_test(filter_, env_extra, release=False, timeout=1500):
     return r.returncode, r.stdout.decode(errors='replace')
 
 
-def run(pid, rep):
+def run(pid, rep, key=None):
     """True: reproduced natively; False: does not reproduce; None: no native replay possible"""
     if not rep: return None
     kind = rep.get('kind')
@@ -25,16 +25,26 @@ def run(pid, rep):
         d = os.path.join(overlay.W, 'replay-in'); os.makedirs(d, exist_ok=True)
         fd, path = tempfile.mkstemp(suffix='.json', dir=d); os.close(fd)
         json.dump(rep['spec'], open(path, 'w'))
-        rc, out = cargo_test('verif_replay', {'VERIF_REPLAY_FILE': path})
+        # the violated clause: first two components of the key, e.g. C01/cluster-view or C06/readdressed-...
+        want = [pid + '/']
+        if key:
+            parts = key.split('/')
+            want = ['/'.join(parts[:2])] if len(parts) >= 2 else [key]
+        ran = False; hit = False; outs = []
+        # std HashMap iteration order is random per process: allocation-dependent witnesses may need several runs
+        for attempt in range(int(rep.get('retries', 1))):
+            rc, out = cargo_test('verif_replay', {'VERIF_REPLAY_FILE': path})
+            lines = [l for l in out.splitlines() if l.startswith('VERIF-REPLAY:')]
+            outs = lines
+            if any('done' in l for l in lines) or any('violated' in l for l in lines): ran = True
+            else:
+                print('[replay] native replay did not run:\n' + out[-2500:], file=sys.stderr); break
+            if any('violated' in l and (any(w in l for w in want) or 'no-panic' in l) for l in lines):
+                hit = True; break
         os.remove(path)
-        lines = [l for l in out.splitlines() if l.startswith('VERIF-REPLAY:')]
-        rep['native_output'] = lines[-12:]
-        if not any('done' in l for l in lines) and not any('violated' in l for l in lines):
-            print('[replay] native replay did not run:\n' + out[-2500:], file=sys.stderr)
-            return None
-        want = rep.get('accept_prefix') or (pid + '/')
-        hit = [l for l in lines if 'violated' in l and (want in l or 'no-panic' in l)]
-        return bool(hit)
+        rep['native_output'] = outs[-12:]
+        if not ran: return None
+        return hit
     if kind == 'rust-test':
         rc, out = cargo_test(rep['filter'], rep.get('env', {}))
         lines = [l for l in out.splitlines() if l.startswith('VERIF-REPLAY:')]
